@@ -11,7 +11,8 @@ pub trait Zero: Sized {
     fn zero() -> (r: Self)
         ensures r == Self::zero_spec();
 }
-pub trait NumOps: Add<Output = Self> + Mul<Output = Self> + Sized {}
+// num_traits::NumOps = Add + Sub + Mul + Div + Rem (Rem is not used by the crate's code)
+pub trait NumOps: Add<Output = Self> + Sub<Output = Self> + Mul<Output = Self> + Div<Output = Self> + Sized {}
 
 pub open spec fn num_ok<T: NumOps>() -> bool {
     &&& T::obeys_add_spec()
